@@ -60,6 +60,10 @@ class Adapter(EnvAdapter):
                       props=INJ_PROPS))
         out.append(_c("inj3x3", 0, 1, ["masked"], g(3, 3, 4000), inject=("MC_Snake", "MC_Snake_thorough.cfg"), post_terminal=0,
                       limit=8000, props=INJ_PROPS))
+        # degenerate and larger boards: one row / one column (the snake can never turn), more than 255 cells
+        out.append(_c("r1c6", 30, 12, mix, g(1, 6, 4000)))
+        out.append(_c("r5c1", 30, 10, mix, g(5, 1, 4000)))
+        out.append(_c("r17c16_t40", 4, 44, ["seek", "survive", "masked"], g(17, 16, 40), probe_every=4))
         for t in (1, 2, 3, 7):
             out.append(_c(f"r12c12_t{t}", 8, t + 3, ["survive", "seek", "random"], g(12, 12, t)))
         return out
